@@ -503,6 +503,13 @@ func (p *Pipe) Mark() {
 	p.mark = p.produced
 }
 
+// StallFromHere withholds everything produced from now on; for use INSIDE a Reactor (the pipe's lock is held there): the
+// device acts on what it received, its answer never arrives.
+func (p *Pipe) StallFromHere() {
+	p.mark = p.produced
+	p.StallAt = 0
+}
+
 // SetStall stalls delivery after k bytes past the mark (-1 removes the stall = catch up).
 func (p *Pipe) SetStall(k int) {
 	p.mu.Lock()
